@@ -372,7 +372,7 @@ impl Mach {
                 // (not part of the observation digest: the number of dead intermediate
                 // nodes legitimately depends on the cache configuration)
             }
-            AddVars { k } => {
+            AddVars { k } | AddVarsInReorder { k } => {
                 if model.n + *k as u32 > self.max_vars() {
                     return true;
                 }
@@ -380,7 +380,8 @@ impl Mach {
                     return true;
                 }
                 let pre = model.n;
-                let range = self.mref.with_manager_exclusive(|m| m.add_vars(*k as u32));
+                let nested = matches!(ins, AddVarsInReorder { .. });
+                let range = self.mref.with_manager_exclusive(|m| if nested { m.reorder(|m| m.add_vars(*k as u32)) } else { m.add_vars(*k as u32) });
                 model.add_vars(*k as u32);
                 ctx.stats.bump("fault.add_vars");
                 if range != (pre..pre + *k as u32) {
@@ -766,7 +767,7 @@ impl Mach {
                                     let p: &[&str] = match ins {
                                         Some(Instr::Gc) | Some(Instr::Drop { .. }) | Some(Instr::Clone { .. }) => &["C05"],
                                         Some(Instr::Order { .. }) => &["C08"],
-                                        Some(Instr::AddVars { .. }) | Some(Instr::AddNamed { .. }) | Some(Instr::AddNamedMap { .. }) => {
+                                        Some(Instr::AddVars { .. }) | Some(Instr::AddVarsInReorder { .. }) | Some(Instr::AddNamed { .. }) | Some(Instr::AddNamedMap { .. }) => {
                                             if KIND == Kind::Zbdd { &["C09", "C16"] } else { &["C16"] }
                                         }
                                         _ => &["C03", "C05"],
@@ -782,8 +783,12 @@ impl Mach {
                                 let rc = s.reach_count(e);
                                 let exp = model.canon_size(md);
                                 if rc != exp {
-                                    let p: &[&str] = if matches!(ins, Some(Instr::Order { .. })) { &["C03", "C08"] } else { &["C03"] };
-                                    ctx.violate(p, "not-canonical-size", format!("r{} = {} has {} nodes, the reduced diagram has {}", r, md.short(), rc, exp));
+                                    let mut p: Vec<&str> = if matches!(ins, Some(Instr::Order { .. })) { vec!["C03", "C08"] } else { vec!["C03"] };
+                                    if written && !p.contains(&ip) {
+                                        // the operation did not return the canonical diagram of its result
+                                        p.push(ip);
+                                    }
+                                    ctx.violate(&p, "not-canonical-size", format!("r{} = {} has {} nodes, the reduced diagram has {}", r, md.short(), rc, exp));
                                 }
                                 if written {
                                     ctx.obs.u64(rc as u64);
